@@ -255,9 +255,16 @@ class InternalRunAdapter(ABC):
         tasks = all_tasks(all_named)
         if not tasks:
             return WaitForNextTaskResult(None, started)
-        done, _ = await asyncio.wait(
-            tasks, timeout=timeout, return_when=asyncio.FIRST_COMPLETED
-        )
+        try:
+            done, _ = await asyncio.wait(
+                tasks, timeout=timeout, return_when=asyncio.FIRST_COMPLETED
+            )
+        except asyncio.CancelledError:
+            # The caller only learns about `started` when this returns: do not
+            # leak step workers that keep running after the run was aborted.
+            for named in started:
+                named.task.cancel()
+            raise
         completed = pick_highest_priority(all_named, done) if done else None
         return WaitForNextTaskResult(completed, started)
 
